@@ -200,15 +200,15 @@ def genAxisAndAngle3d (eig : Rows → List EVal × List (List Rat)) (sqrt : Rat 
 
 def genAsVector (eigh : Rows → List Rat × Rows) (self : Tr) : Except Err (List Rat) :=
   if (((self.nDims) == (3))) then
-    let m000 := (self.hGet (0) (0))
-    let m010 := (self.hGet (0) (1))
-    let m020 := (self.hGet (0) (2))
-    let m100 := (self.hGet (1) (0))
-    let m110 := (self.hGet (1) (1))
-    let m120 := (self.hGet (1) (2))
-    let m200 := (self.hGet (2) (0))
-    let m210 := (self.hGet (2) (1))
-    let m220 := (self.hGet (2) (2))
+    let m000 := (Rows.get (self.hRows) (0) (0))
+    let m010 := (Rows.get (self.hRows) (0) (1))
+    let m020 := (Rows.get (self.hRows) (0) (2))
+    let m100 := (Rows.get (self.hRows) (1) (0))
+    let m110 := (Rows.get (self.hRows) (1) (1))
+    let m120 := (Rows.get (self.hRows) (1) (2))
+    let m200 := (Rows.get (self.hRows) (2) (0))
+    let m210 := (Rows.get (self.hRows) (2) (1))
+    let m220 := (Rows.get (self.hRows) (2) (2))
     let K0 := ([[((m000 - m110) - m220), (0 : Rat), (0 : Rat), (0 : Rat)], [(m010 + m100), ((m110 - m000) - m220), (0 : Rat), (0 : Rat)], [(m020 + m200), (m120 + m210), ((m220 - m000) - m110), (0 : Rat)], [(m210 - m120), (m020 - m200), (m100 - m010), ((m000 + m110) + m220)]] : Rows)
     let K1 := (Rows.divScalar K0 3)
     let p0 := (eigh K1)
